@@ -28,20 +28,22 @@ Inductive items :=
     (* any other code *)
 | IBlock (body rest : items)
     (* do..end, a while body, one branch of an if *)
-| IFor (parts : list (binding * list Z)) (late : list binding) (body rest : items)
+| IFor (parts : list (binding * list Z)) (late : list binding) (iter : list Z) (body rest : items)
     (* a for loop: the hidden control variables, each with the points inside the header
-       expression compiled right after it is registered; then the declared loop variables *)
+       expression compiled right after it is registered; then the declared loop variables;
+       iter: the loop instruction itself as a point (a generic for calls its iterator there:
+       the hidden variables are in scope, the declared ones are not - lparser.c forbody) *)
 | IRepeat (body : items) (cond : list Z) (rest : items).
     (* repeat body until cond — cond sees the locals of body *)
 
 (* for v = e1,e2,e3 do body end; h1..h3: points inside e1..e3; vi vl vs: values of the hidden
    variables where known.  The hidden names are those of Lua 5.1 (lparser.c fornum/forlist). *)
 Definition INumFor (h1 h2 h3 : list Z) (vi vl vs : option Z) (v : binding) (body rest : items) : items :=
-  IFor [((for_index, vi), h1); ((for_limit, vl), h2); ((for_step, vs), h3)] [v] body rest.
+  IFor [((for_index, vi), h1); ((for_limit, vl), h2); ((for_step, vs), h3)] [v] [] body rest.
 
-(* for n1,..,nk in explist do body end; h: points inside explist *)
-Definition IGenFor (h : list Z) (vs : list binding) (body rest : items) : items :=
-  IFor [((for_generator, None), []); ((for_state, None), []); ((for_control, None), h)] vs body rest.
+(* for n1,..,nk in explist do body end; h: points inside explist; it: the call of the iterator *)
+Definition IGenFor (h : list Z) (vs : list binding) (it : list Z) (body rest : items) : items :=
+  IFor [((for_generator, None), []); ((for_state, None), []); ((for_control, None), h)] vs it body rest.
 
 (* names a block declares at its own level, in order (what `until` still sees) *)
 Fixpoint decls (its : items) : list binding :=
@@ -50,7 +52,7 @@ Fixpoint decls (its : items) : list binding :=
   | ILocal bs r => bs ++ decls r
   | IPoint _ r | IPad r => decls r
   | IBlock _ r => decls r
-  | IFor _ _ _ r => decls r
+  | IFor _ _ _ _ r => decls r
   | IRepeat _ _ r => decls r
   end.
 
@@ -70,9 +72,10 @@ Fixpoint scope_at (env : list binding) (its : items) (p : Z) : option (list bind
   | IPoint q r => if q =? p then Some env else scope_at env r p
   | IPad r => scope_at env r p
   | IBlock b r => orelse (scope_at env b p) (scope_at env r p)
-  | IFor parts late b r =>
+  | IFor parts late it b r =>
       if zmem p (for_points parts) then Some env
-      else orelse (scope_at (env ++ for_hidden parts ++ late) b p) (scope_at env r p)
+      else orelse (scope_at (env ++ for_hidden parts ++ late) b p)
+                  (if zmem p it then Some (env ++ for_hidden parts) else scope_at env r p)
   | IRepeat b c r =>
       orelse (scope_at env b p)
              (if zmem p c then Some (env ++ decls b) else scope_at env r p)
@@ -107,8 +110,9 @@ Fixpoint trace (its : items) : list sev :=
   | IPoint q r => SPt q :: trace r
   | IPad r => trace r
   | IBlock b r => SEnter :: trace b ++ SLeave :: trace r
-  | IFor parts late b r =>
-      pts (for_points parts) ++ SEnter :: map SDecl (for_hidden parts ++ late) ++ trace b ++ SLeave :: trace r
+  | IFor parts late it b r =>
+      pts (for_points parts) ++ SEnter :: map SDecl (for_hidden parts) ++
+      SEnter :: map SDecl late ++ trace b ++ SLeave :: pts it ++ SLeave :: trace r
   | IRepeat b c r => SEnter :: trace b ++ pts c ++ SLeave :: trace r
   end.
 
